@@ -27,6 +27,7 @@ def bounds(tier):
             "ffd/bfd": f"all multisets of 1..{8 if q else 9} items over 0..6 (B=6) and 1..{7 if q else 8} over 1..10 (B=10)",
             "planted-big": "B=12 and B=101 (letters 1,2,16,17,33,34,50,51,67): every unordered pair of patterns x multiplicities " + ("(18,9),(60,30)" if q else "(18,9),(60,30),(5,100),(150,150)") + ", 6 arrival orders",
             "count-sweep": f"for every m in 1..{40 if q else 140}: inputs that need exactly m bins (B=10), 6 arrival orders",
+            "fractions": f"multiples of 1/2 (B=7, B=10): sequences of 1..{4 if q else 5}, multisets of 1..{7 if q else 8}; multiples of 1/8 with B=1 and B=7/8: multisets of 1..{8 if q else 9}",
             "big": f"B=2**32, letters {{1, 2**31-1, 2**31, 2**31+1, 2**32-1, 2**32}}: all sequences of 1..{4 if q else 5}, multisets of 1..{5 if q else 6}",
             "planted": f"B=12, letters {PLANT_LETTERS}, patterns <=4 parts, m=3..{6 if q else 8} bins, 6 orders, 4 algorithms"}
 
@@ -61,6 +62,16 @@ def tasks(tier):
         ts.append(("seq", ch, 2 ** 32))
     for ch in scopes.chunk_multisets(BL, 1, 5 if q else 6, 200):
         ts.append(("ms", ch, 2 ** 32))
+    for Bh, letters in scopes.HALVES.items():          # multiples of 1/2 around B/2 and B; and eighths with B=1 and B=7/8
+        for ch in spaces.chunked(spaces.sequences(letters, 1, 4 if q else 5), 1000):
+            ts.append(("seq", ch, Bh))
+        for ch in scopes.chunk_multisets(letters, 1, 7 if q else 8, 1000):
+            ts.append(("ms", ch, Bh))
+    from fractions import Fraction
+    for Bd in (1.0, 0.875):
+        eighths = [i / 8 for i in range(1, 9) if i / 8 <= Bd]
+        for ch in scopes.chunk_multisets(eighths, 1, 8 if q else 9, 1000):
+            ts.append(("ms", ch, Bd))
     for ch in spaces.chunked(((items, m) for items, _, m in scopes.count_sweep_packing(tier)), 12):
         ts.append(("planted", ch, 10))
     return ts
@@ -110,14 +121,15 @@ def run_task(task):
             acc.point(nontrivial=(n >= 2))
         elif scope == "ms":
             opt = max(1, O.opt_pack(tuple(it), B))
-            n = max(_judge(acc, a, it, B, opt) for a in ("ffd", "bfd"))
+            # presented in ASCENDING order: a decreasing variant that fails to sort (or sorts by a wrong key) degrades to the online rule
+            n = max(_judge(acc, a, it[::-1], B, opt) for a in ("ffd", "bfd"))
             acc.point(nontrivial=(n >= 2))
         else:
             items, m = it
             for order in spaces.fixed_orders(items):
                 n = max(_judge(acc, a, order, B, m) for a in ("ff", "bf"))
                 acc.point(nontrivial=(n >= 2))
-            n = max(_judge(acc, a, items, B, m) for a in ("ffd", "bfd"))
+            n = max(_judge(acc, a, tuple(sorted(items)), B, m) for a in ("ffd", "bfd"))
             acc.point(nontrivial=(n >= 2))
         if it == chunk[0]:
             acc.sample({"input": list(it), "binsize": B, "scope": scope})
